@@ -661,6 +661,16 @@ def inst_same(a, b, path="$"):
             r = inst_same(getattr(a, n), getattr(b, n), f"{path}.{n}")
             if r:
                 return r
+        # attributes beyond the declared fields (models configured with extra = "allow": Provenance, Model), read by attribute
+        # access and not through .dict() (which is the serialiser's own code path)
+        xa = {k: v for k, v in vars(a).items() if k not in a.__fields__ and not k.startswith("_")}
+        xb = {k: v for k, v in vars(b).items() if k not in b.__fields__ and not k.startswith("_")}
+        if set(xa) != set(xb):
+            return f"{path}: additional attributes {sorted(set(xa) ^ set(xb))[:6]} differ"
+        for k in xa:
+            r = inst_same(xa[k], xb[k], f"{path}.{k}")
+            if r:
+                return r
         return None
     if isinstance(a, dict) and isinstance(b, dict):
         if set(a) != set(b):
@@ -744,6 +754,58 @@ def optional_array_fields_not_size1(obj, path="$"):
 
 KNOWN_KIND_EXCLUDE_DEFAULTS = "oracle:exclude_defaults_array_field"
 KNOWN_KIND_RESER_SETNESS = "oracle:reserialise_exclude_defaults_setness"
+KNOWN_KIND_EXTRA_ORDER = "oracle:reserialise_extra_attribute_order"
+# sub-models configured with extra = "allow" (models/common_models.py): their additional attributes are stored in the order in
+# which pydantic-v1's validate_model iterates a SET of the extra keys, i.e. in an order that depends on the interpreter's string
+# hashing (PYTHONHASHSEED) and on the insertion order of the input — so the payload of the parsed-back instance can list them
+# in another order than the first payload did
+EXTRA_ALLOW_DECLARED = {"provenance": ["creator", "version", "routine"], "model": ["method", "basis"]}
+
+
+def extra_order_only(a, b, path=()):
+    """[(path, keys_a, keys_b)] if the decoded payloads a, b are equal as UNORDERED trees and every dict whose key order differs
+    is an extra="allow" sub-model (last path element `provenance` / `model`) whose DECLARED fields keep their order, so that only
+    the additional attributes are permuted; None if they differ in any other way."""
+    if isinstance(a, dict) and isinstance(b, dict):
+        if set(a) != set(b):
+            return None
+        hits = []
+        if list(a) != list(b):
+            name = path[-1] if path else None
+            decl = EXTRA_ALLOW_DECLARED.get(name)
+            if decl is None:
+                return None
+            if [k for k in a if k in decl] != [k for k in b if k in decl]:
+                return None
+            xa, xb = [k for k in a if k not in decl], [k for k in b if k not in decl]
+            if len(xa) < 2 or sorted(xa) != sorted(xb):
+                return None
+            hits.append(("/".join(map(str, path)), xa, xb))
+        for k in a:
+            r = extra_order_only(a[k], b[k], path + (k,))
+            if r is None:
+                return None
+            hits += r
+        return hits
+    if isinstance(a, list) and isinstance(b, list):
+        if len(a) != len(b):
+            return None
+        hits = []
+        for i, (x, y) in enumerate(zip(a, b)):
+            r = extra_order_only(x, y, path + (i,))
+            if r is None:
+                return None
+            hits += r
+        return hits
+    try:
+        if isinstance(a, np.ndarray) or isinstance(b, np.ndarray):
+            xa, xb = np.asarray(a), np.asarray(b)
+            same = xa.dtype == xb.dtype and xa.shape == xb.shape and xa.tobytes() == xb.tobytes()
+        else:
+            same = bool(a == b or (a != a and b != b))
+    except Exception:  # noqa
+        same = False
+    return [] if same else None
 
 
 def emptied_submodel_keys(first, second, path="$"):
@@ -802,6 +864,10 @@ def known_predicate(finding, entry) -> bool:
             and set(c.get("options", {})) == {"exclude_defaults"}
             and bool(c.get("emptied_keys"))
         )
+    if entry.get("kind") == KNOWN_KIND_EXTRA_ORDER and finding.kind == KNOWN_KIND_EXTRA_ORDER:
+        # every recorded difference is a permutation of >= 2 additional attributes under a `provenance` / `model` key
+        p = c.get("permuted") or []
+        return bool(p) and all(len(x) == 3 and str(x[0]).split("/")[-1] in EXTRA_ALLOW_DECLARED and len(x[1]) >= 2 and sorted(x[1]) == sorted(x[2]) and x[1] != x[2] for x in p)
     return False
 
 
@@ -1355,8 +1421,11 @@ def rand_atomic_result(rng, mol=None, allow_wfn=True):
         rr = np.array([rfloat(rng) for _ in range(9 * n * n)]).reshape(3 * n, 3 * n)
     else:
         rr = {"a": rfloat(rng), "b": [1, 2], "c": {"d": "x"}}
-    kw = dict(molecule=mol, driver=driver, model={"method": "hf", **({"basis": "sto-3g"} if rng.random() < 0.5 else {})}, return_result=rr,
-              properties=props, success=True, provenance={"creator": "c10", **({"version": "1.0"} if rng.random() < 0.5 else {})})
+    # Provenance and Model accept additional attributes (extra = "allow"): they are field values of the instance like any other
+    prov_extra = {"module": "scf", "nthreads": 4, "wall": rfloat(rng)} if rng.random() < 0.4 else {}
+    model_extra = {"dispersion": "d3bj", "grid": [75, 302]} if rng.random() < 0.3 else {}
+    kw = dict(molecule=mol, driver=driver, model={"method": "hf", **({"basis": "sto-3g"} if rng.random() < 0.5 else {}), **model_extra}, return_result=rr,
+              properties=props, success=True, provenance={"creator": "c10", **({"version": "1.0"} if rng.random() < 0.5 else {}), **prov_extra})
     if rng.random() < 0.4:
         kw["stdout"] = "line1\nline2 é"
     if rng.random() < 0.3:
@@ -1380,8 +1449,19 @@ def rand_atomic_result(rng, mol=None, allow_wfn=True):
         if rng.random() < 0.4:
             w["scf_density_a"] = np.array([rfloat(rng) for _ in range(nbf * nbf)])
             w["density_a"] = "scf_density_a"
+        if not w["restricted"] or rng.random() < 0.5:
+            # beta quantities: kept for an unrestricted wavefunction, pruned at construction for a restricted one
+            w["scf_orbitals_b"] = np.array([rfloat(rng) for _ in range(nbf * nmo)]).reshape(nbf, nmo)
+            w["orbitals_b"] = "scf_orbitals_b"
+            w["scf_eigenvalues_b"] = np.array([rfloat(rng) for _ in range(nmo)])
+            w["eigenvalues_b"] = "scf_eigenvalues_b"
+        # the wavefunction as a dictionary or as an already built WavefunctionProperties object; under every retention policy
+        if rng.random() < 0.4:
+            from qcelemental.models.results import WavefunctionProperties
+
+            w = WavefunctionProperties(**w)
         kw["wavefunction"] = w
-        kw["protocols"] = {"wavefunction": "all"}
+        kw["protocols"] = {"wavefunction": rng.choice(["all", "all", "orbitals_and_eigenvalues", "return_results", "none"])}
     return AtomicResult(**kw)
 
 
@@ -1600,7 +1680,18 @@ def check_instance(ctx, out: Outcome, name, obj, case_seed, files_dir=None, only
                             only_empty = emptied_submodel_keys(deserialize(blob, enc), deserialize(again, enc))
                         except Exception:  # noqa
                             only_empty = None
-                    if only_empty:
+                    extra_perm = None
+                    if isinstance(again, type(blob)):
+                        try:
+                            extra_perm = extra_order_only(deserialize(blob, enc), deserialize(again, enc))
+                        except Exception:  # noqa
+                            extra_perm = None
+                    if extra_perm:
+                        # recorded class: same values, only the additional attributes of an extra="allow" sub-model listed in another order
+                        out.count("known-class:reserialise_extra_attribute_order")
+                        out.violations.append(Finding(KNOWN_KIND_EXTRA_ORDER, {**case, "permuted": [list(x) for x in extra_perm[:4]]}, observed=str(again)[:300], expected=str(blob)[:300],
+                                                      detail="second payload lists the additional attributes of an extra='allow' sub-model in another order (set iteration in pydantic-v1 validate_model; depends on PYTHONHASHSEED)"))
+                    elif only_empty:
                         # recorded class (reported upstream): the two payloads differ ONLY by keys that hold an empty dict in
                         # the first payload (a sub-model whose explicitly-set fields all equal their defaults)
                         out.count("known-class:reserialise_exclude_defaults_setness")
